@@ -507,6 +507,10 @@ func (b Builder) PyUint64(uintVal Expr) (ret Expr) {
 
 // PyStr returns a py-style string constant expression.
 func (b Builder) PyStr(v string) Expr {
+	if strings.IndexByte(v, 0) >= 0 {
+		// a NUL-terminated C string would cut v short; pass its length
+		return b.PyStrExpr(b.Str(v))
+	}
 	fn := b.Pkg.pyFunc("PyUnicode_FromString", b.Prog.tyPyUnicodeFromString())
 	return b.Call(fn, b.CStr(v))
 }
